@@ -193,7 +193,7 @@ theorem inv_step_unlink {s s' : State} {o : Out} (h : Inv s) (hl : 0 < s.linkCou
       cases hs
       refine ⟨h.noPanic, ?_, h.writersEq, h.closedIff, h.closesEq, h.pcs, h.cachedOk, h.casOk⟩
       have h2 : 0 < s.linkCount - 1 := by omega
-      simp only [baseLinks, hlay, if_true, hl, h2, gt_iff_lt] at hr ⊢
+      simp only [baseLinks, hlay, if_true, hl, h2] at hr ⊢
       exact hr
   · rename_i hlay
     simp only [Option.some.injEq, Prod.mk.injEq] at hs
@@ -497,7 +497,7 @@ theorem inv_step {s s' : State} {o : Out} (op : Op) (h : Inv s) (hl : legal s op
   | chown => exact inv_step_simple h _ (Or.inr (Or.inl rfl)) hs
   | persist => exact inv_step_simple h _ (Or.inr (Or.inr (Or.inl rfl))) hs
   | mbegin t op =>
-    have := legal_mut (s := s) (op := op) (by simpa [legal] using hl)
+    have := legal_mut (s := s) (op := op) hl
     exact inv_step_mbegin h t op this.1 this.2 hs
   | mwake t =>
     refine inv_step_mwake h t ?_ hs
